@@ -277,6 +277,7 @@ static const struct xelem *accept_exact;        /* audit: accept exactly this el
  * of a pending rehash on the side is the library's business and must not disturb the lookup it is nested in) */
 static struct cstl_hash *nest_tab; static size_t nest_key; static const struct xelem *nest_expect; static int nest_active, nest_done, nest_bad;
 
+static int foreach_const_plain(const struct cstl_hash *h);
 static int find_visit(const void *obj, void *priv)
 {
     CB_ENTER();
@@ -973,6 +974,13 @@ static void x_once(const plan_t *p)
             stop_at = (o->a[2] & 1) ? 0 : (int)(o->a[3] % (uint64_t)(m->nlive + 2));
             stop_val = stopvals[(o->a[1] >> 8 ^ o->a[1]) % 12];
             if (!was_settled) { PROBE("foreach_const_mid_rehash"); if (m->req.n > m->hist[1].n) PROBE("foreach_const_grow_pending"); }
+            if (k % 4 == 1 && mode_g != 16 && mode_g != 17) {
+                /* what an optimised caller may assume about the call (attributes on its prototype): the visit function's
+                 * effects on the caller's own statics must be visible when it returns */
+                int seen = foreach_const_plain(&tb[t]);
+                if (seen != m->nlive) VIOL("callback_effects_invisible", "foreach_const over %d elements: the caller's own counter, written by the visit function and read right after the call in an optimised function, says %d", m->nlive, seen);
+                PROBE("callback_counted_in_plain_function");
+            }
             TRY(ri = cstl_hash_foreach_const(&tb[t], enum_visit_const, NULL));
             if (c17_after(t, "foreach_const")) return;
             if (g_aborted) VIOL(g_aborted == 2 ? "assert" : "abort", "foreach_const aborted");
@@ -1150,6 +1158,9 @@ static void x_once(const plan_t *p)
 
 /* a table whose buckets hold enormous chains: 100 000 ... 600 000 elements in 1-3 buckets, then a resize to a sensible
  * size and the whole rehash (every node of the long chains is relinked), enumeration, lookups, clear */
+static int pl_calls;
+static int pl_visit_const(const void *e, void *p) { (void)e; (void)p; pl_calls++; return 0; }
+static int foreach_const_plain(const struct cstl_hash *h) { pl_calls = 0; g_inlib = 1; (void)cstl_hash_foreach_const(h, pl_visit_const, NULL); g_inlib = 0; return pl_calls; }
 static uint64_t hc_seen; static uint64_t hc_cleared;
 static int hc_visit(const void *e, void *p) { (void)e; (void)p; hc_seen++; return 0; }
 static void hc_clear(void *e, void *p) { (void)e; (void)p; hc_cleared++; }
